@@ -188,10 +188,14 @@ func (g *inputGen) tok() token {
 		}
 		return token{"paste", []byte("\x1b[201~")}
 	case k < 16:
+		rep := "\x1b[I"
 		if r.Intn(2) == 0 {
-			return token{"focus", []byte("\x1b[I")}
+			rep = "\x1b[O"
 		}
-		return token{"focus", []byte("\x1b[O")}
+		if r.Intn(3) == 0 { // the same report twice in a row: two events
+			rep += rep
+		}
+		return token{"focus", []byte(rep)}
 	case k < 18 && g.clip:
 		data := make([]byte, r.Intn(7))
 		r.Read(data)
